@@ -7,7 +7,8 @@ A case is a schedule over ONE real `Transfer` object (subclassed only to record 
 
 `transfer.state_listeners` = the manager's own listener (number 0, as `TransferManager.add` registers it) followed by
 one application listener per entry of `ls`, in that order: `gated` = it suspends until a `resume`, `yields` = it then
-suspends for that many loop iterations. (Older cases say `slow_listener`, `ly` instead of `ls`: one such listener.)
+suspends for that many loop iterations (a list = one entry per invocation, cycled: a listener that is slow the first
+time and quick the next). (Older cases say `slow_listener`, `ly` instead of `ls`: one such listener.)
 
 Every step = its actions, then the loop is run until nothing more can happen, then one observation.
 Actions: ['call', id, method, reason, remotely] (`transfer.state.<method>(…)` evaluated AND scheduled now),
@@ -99,8 +100,8 @@ class _Gate:
 def _listeners(case: dict) -> list:
     """[gated, yields] of every application listener, in registration order (after the manager's own)."""
     if 'ls' in case:
-        return [[int(bool(g)), int(y)] for g, y in case['ls']]
-    return [[int(bool(case.get('slow_listener'))), int(case.get('ly', 0))]]
+        return [[int(bool(g)), [int(v) for v in (y if isinstance(y, list) else [y])] or [0]] for g, y in case['ls']]
+    return [[int(bool(case.get('slow_listener'))), [int(case.get('ly', 0))]]]
 
 
 _SETTINGS = None
@@ -174,14 +175,16 @@ async def _scenario(loop, case, path):
         suspends as the case says."""
 
         def __init__(self, li, gated, yields):
-            self.li, self.gated, self.yields = li, gated, yields
+            self.li, self.gated, self.yields, self.n = li, gated, yields, 0
 
         async def on_transfer_state_changed(self, transfer, old, new):
             add('event', li=self.li, old=old.name, new=new.name, cur=transfer.state.VALUE.name)
+            y = self.yields[self.n % len(self.yields)]
+            self.n += 1
             try:
                 if self.gated:
                     await gate.wait()
-                for _ in range(self.yields):
+                for _ in range(y):
                     await asyncio.sleep(0)
             finally:
                 add('event-end', li=self.li)
@@ -608,9 +611,10 @@ def _pair_mgr_cases() -> list[dict]:
 
 
 def _listener_mix(rng, gated_ok: bool) -> list:
-    """1–3 application listeners; some suspend for 0..3 loop iterations, some (when the schedule has `resume` steps to
-    let them go) on the gate."""
-    return [[int(gated_ok and rng.random() < 0.4), rng.choice([0, 0, 1, 2, 3])] for _ in range(rng.choice([1, 2, 2, 3]))]
+    """1–3 application listeners; some suspend for 0..3 loop iterations (the same number every time, or slow one time
+    and quick the next), some (when the schedule has `resume` steps to let them go) on the gate."""
+    return [[int(gated_ok and rng.random() < 0.4), rng.choice([0, 0, 1, 2, 3, [3, 0], [0, 2], [2, 0, 1]])]
+            for _ in range(rng.choice([1, 2, 2, 3]))]
 
 
 def _pair_burst_cases(rng) -> list[dict]:
